@@ -65,3 +65,25 @@ Theorem C13_catalog_after_any_history :
 Proof. exact history_catalog. Qed.
 Print Assumptions C13_catalog_after_any_history.
 
+
+(* ---- CreateCollectionByQuery: the new collection holds exactly the selected documents, no index, every other collection unchanged; what a failure leaves behind ---- *)
+From Clover Require Import QueryProofs CompositeSpec CompositeProofs.
+Theorem C13_create_by_query : forall db h c q,
+  wf_db db -> R db (durable h) -> closed h = false -> op_dom_all db (OCreateByQuery c q) ->
+  assoc c db = None ->
+  forall nq, normalize_query (mk_query q) = Some nq ->
+  match assoc (nq_coll nq) db with
+  | None =>
+      (nq_coll nq = c -> fst (step h (OCreateByQuery c q)) = T_ok (TL [])) /\
+      (nq_coll nq <> c -> fst (step h (OCreateByQuery c q)) = T_err ECollNotExist) /\
+      wf_db (db ++ [(c, mkSC [] [])]) /\
+      R (db ++ [(c, mkSC [] [])]) (durable (snd (step h (OCreateByQuery c q))))
+  | Some sc =>
+      exists res,
+        find_ok' (map snd (sc_docs sc)) nq res /\
+        fst (step h (OCreateByQuery c q)) = T_ok (TL []) /\
+        let db' := assoc_set c (mkSC (map (fun d => (object_id d, d)) res) []) (db ++ [(c, mkSC [] [])]) in
+        wf_db db' /\ R db' (durable (snd (step h (OCreateByQuery c q))))
+  end.
+Proof. exact create_by_query_refines_exact. Qed.
+Print Assumptions C13_create_by_query.
